@@ -5,7 +5,10 @@ plain Python lists and once per alternative encoding of the same values (ndarray
 float dtypes, object dtype, non-contiguous views, pandas Series with default / shifted index, DataFrame); the
 output streams must be equal bit-for-bit.  The always-on snapshot contract (mon.contracts) compares a
 byte-level image of every argument of every public call, and of the constructor's arguments, before and
-after the call; here its alarms are verdicts.  The arm list must be independent of the caller's list."""
+after the call; here its alarms are verdicts.  The arm list must be independent of the caller's list.
+
+As built: Extras: the objects a bandit was constructed from (arms list, policy tuples incl. their mutable fields) stay under the snapshot contract for the bandit's whole life; encodings also cover boolean rewards and nested lists mixing Python ints and floats (fractional values in later rows).
+"""
 from mon import env  # noqa: F401
 import copy
 
